@@ -15,6 +15,7 @@ From SP Require Import Design.Flat Design.Layout Design.Sem Comb.CombModel Comb.
 From SP Require Comb.PermProofs Encode.CodeSem.
 Import ListNotations.
 Open Scope nat_scope.
+Set Default Proof Using "All".
 
 Lemma prodZl_pos l : (forall x, In x l -> (0 < x)%Z) -> (0 < prodZl l)%Z.
 Proof.
@@ -39,27 +40,29 @@ Section F2M.
 Variable fb : flat.
 Hypothesis HF : frag2 fb = true.
 Variables m lm : memo_t.
+Variables cn lcn : Z.
 Hypothesis HM : memos_ok fb m lm.
-Hypothesis Hen : make_enumerator fb = ROk (f0_enum fb m lm).
+Hypothesis Hen : make_enumerator fb = ROk (f0_enum fb m lm cn lcn).
+Hypothesis Hcn : (0 < cn)%Z.
 
 Local Notation Hq := (f0_q_pos fb HF).
-Local Notation en := (f0_enum fb m lm).
+Local Notation en := (f0_enum fb m lm cn lcn).
 Local Notation n := (length (fl_design fb)).
 Local Notation S0 := (code_sem fb).
 
 Lemma f2_keys_of : keys_of fb = if fl_errors_fail fb || (en_count en =? 0)%Z then [] else f0_keys fb.
-Proof. unfold keys_of. rewrite (sample_keys_f0 fb HF m lm HM Hen). reflexivity. Qed.
+Proof. unfold keys_of. rewrite (sample_keys_f0 fb HF m lm cn lcn HM Hen). reflexivity. Qed.
 
 Lemma f2_keys_of_ok k : In k (keys_of fb) -> key_ok fb k.
 Proof.
   rewrite f2_keys_of. destruct (fl_errors_fail fb || (en_count en =? 0)%Z); [intros []|].
-  apply (f0_keys_In fb HF m lm HM).
+  apply (f0_keys_In fb HF m lm cn lcn HM).
 Qed.
 
 Lemma f2_decode_key k : key_ok fb k ->
   exists r, decode_key fb k = Some r /\ forall g, row_of_run r g = decoded_row fb k g.
 Proof.
-  intros Hk. destruct (decode_f0 fb HF m lm HM k Hk) as [r [Hd Hrow]].
+  intros Hk. destruct (decode_f0 fb HF m lm cn lcn HM k Hk) as [r [Hd Hrow]].
   exists r. split; [|exact Hrow]. unfold decode_key. rewrite Hen, Hd. reflexivity.
 Qed.
 
@@ -86,10 +89,23 @@ Proof.
   intros Hk Hrow. unfold cand_seq. rewrite (f0_valid_base fb HF Hq k Hk r Hrow).
   unfold accepts. rewrite Hen.
   destruct (f0_trials fb (f0_unpack fb HF)) as [HT | [Hnr Hone]].
-  - rewrite (f2_violated fb HF m lm r); [rewrite negb_involutive; reflexivity|].
-    intros g Hg. pose proof (decoded_row_length fb HF Hq k g Hk Hg) as Hl.
-    pose proof (decoded_row_cells fb HF Hq k g Hk Hg) as Hc. rewrite <- Hrow in Hl, Hc.
-    unfold row_of_run in Hl, Hc. destruct (rlookup r g) as [row|]; [exists row; auto | cbn in Hl; lia].
+  - assert (Hcells : forall g, In g (fl_act fb) -> exists row, rlookup r g = Some row /\ length row = fl_trials fb /\
+              Forall (fun cell => exists l, cell = Some l /\ l < nlevels fb g /\
+                                            (~ In g (f0_ubs fb) -> ~ In (FExclude g l) (fl_constraints fb))) row).
+    { intros g Hg. pose proof (decoded_row_length fb HF Hq k g Hk Hg) as Hl.
+      pose proof (decoded_row_cells fb HF Hq k g Hk Hg) as Hc. rewrite <- Hrow in Hl, Hc.
+      unfold row_of_run in Hl, Hc. destruct (rlookup r g) as [row|]; [exists row; auto | cbn in Hl; lia]. }
+    destruct (has_derived fb) eqn:Ehd.
+    + (* derived factors: one crossing, the constraints decide *)
+      destruct (f0_derived_single fb (f0_unpack fb HF) Ehd) as [Hone _].
+      assert (Ho : f0_ocrossings fb = []).
+      { unfold f0_ocrossings. rewrite (f0_crossings fb (f0_unpack fb HF)) in Hone. cbn in Hone.
+        destruct (tl (fl_crossings fb)); [reflexivity | cbn in Hone; lia]. }
+      rewrite Ho. cbn [forallb andb].
+      assert (Hwf : forall g, In g (fl_act fb) -> exists row, rlookup r g = Some row /\ length row = fl_trials fb).
+      { intros g Hg. destruct (Hcells g Hg) as (row & H1 & H2 & _). exists row. auto. }
+      rewrite (f1_violated fb HF r Hwf en eq_refl Hone). rewrite negb_involutive. reflexivity.
+    + rewrite (f2_violated fb HF m lm cn lcn r Hcells Ehd). rewrite negb_involutive. reflexivity.
   - (* one crossing, and no constraint is ever evaluated on a row *)
     assert (Ho : f0_ocrossings fb = []).
     { unfold f0_ocrossings. rewrite (f0_crossings fb (f0_unpack fb HF)) in Hone. cbn in Hone.
@@ -137,17 +153,11 @@ Qed.
 Lemma f2m_keys_nodup : NoDup (keys_of fb).
 Proof.
   rewrite f2_keys_of. destruct (fl_errors_fail fb || (en_count en =? 0)%Z); [constructor|].
-  apply (f0_keys_NoDup fb HF m lm HM).
+  apply (f0_keys_NoDup fb HF m lm cn lcn HM Hen).
 Qed.
 
 Lemma f2_count_pos : (0 < en_count en)%Z.
-Proof.
-  cbn [en_count f0_enum]. apply Z.mul_pos_pos.
-  - unfold f0_N. rewrite <- (f0_p_C fb HF). apply p_N_pos. apply (f0_cws_nonneg fb HF).
-  - apply prodZl_pos. intros x Hx. unfold f0_inds in Hx. apply in_map_iff in Hx. destruct Hx as [g [E Hg]]. subst x.
-    apply Z.pow_pos_nonneg; [|lia]. apply (ubi_In fb HF Hq) in Hg. destruct Hg as [Hg _].
-    pose proof (f0_nonempty fb (f0_unpack fb HF) g Hg). lia.
-Qed.
+Proof. exact Hcn. Qed.
 
 Lemma f2_keys_of_full : fl_errors_fail fb = false -> keys_of fb = f0_keys fb.
 Proof.
@@ -156,7 +166,7 @@ Proof.
 Qed.
 
 Lemma f2m_keys_count : fl_errors_fail fb = false -> Z.of_nat (length (keys_of fb)) = possible_keys fb en.
-Proof. intros He. rewrite (f2_keys_of_full He). apply (f0_keys_length fb HF m lm HM). Qed.
+Proof. intros He. rewrite (f2_keys_of_full He). apply (f0_keys_length fb HF m lm cn lcn HM Hen). Qed.
 
 (** the rows of the implied factors of a valid sequence are what [fill_implied] computes *)
 Lemma implied_rows_of_valid s r g : valid_b S0 s = true ->
@@ -206,7 +216,7 @@ Proof.
       + unfold cand_seq. rewrite (fill_nth fb HF Hq _ Hk r Hrow g Hg).
         destruct (isact fb g) eqn:Ea; [apply (isact_In fb HF) in Ea; contradiction|].
         apply (implied_rows_of_valid s r g Hv Hact_rows Hg Hna). }
-  exists (the_key fb s), r. split; [rewrite (f2_keys_of_full He); apply (f0_keys_In fb HF m lm HM); exact Hk|].
+  exists (the_key fb s), r. split; [rewrite (f2_keys_of_full He); apply (f0_keys_In fb HF m lm cn lcn HM); exact Hk|].
   split; [exact Hd|]. split; [|exact Hs].
   rewrite (f2_accepts_valid _ r Hk Hrow), Hs. exact Hv.
 Qed.
@@ -244,7 +254,8 @@ Proof.
   intros Hrf Hin. rewrite (f2m_key_accepted_spec k Hin).
   pose proof (f2_keys_of_ok k Hin) as Hk. destruct (f2_decode_key k Hk) as [r [Hd Hrow]].
   unfold cand_fseq. rewrite Hd. unfold cand_seq. rewrite (f0_valid_base fb HF Hq k Hk r Hrow).
-  unfold rejection_free in Hrf. apply andb_prop in Hrf. destruct Hrf as [Hrf Hone]. apply Nat.leb_le in Hone.
+  unfold rejection_free in Hrf. apply andb_prop in Hrf. destruct Hrf as [Hrf Hnd].
+  apply andb_prop in Hrf. destruct Hrf as [Hrf Hone]. apply Nat.leb_le in Hone.
   assert (Ho : f0_ocrossings fb = []).
   { unfold f0_ocrossings. rewrite (f0_crossings fb (f0_unpack fb HF)) in Hone. cbn in Hone.
     destruct (tl (fl_crossings fb)); [reflexivity | cbn in Hone; lia]. }
@@ -258,7 +269,10 @@ Proof.
   apply andb_prop in Hc. destruct Hc as [Hf _]. apply (isact_In fb HF) in Hf.
   unfold constraint_ok, CodeSem.mk_c. cbn [k_kind k_factor k_level].
   rewrite tseq_nth by (apply (act_lt fb HF); exact Hf). rewrite Hrow. apply Nat.eqb_eq.
-  apply (decoded_row_not_excluded fb HF Hq k f l Hk Hf Hx).
+  apply orb_true_iff in Hnd. destruct Hnd as [Hnd | Hnx].
+  - apply negb_true_iff in Hnd. apply (decoded_row_not_excluded fb HF Hq k f l Hk Hf); [|exact Hx].
+    destruct (f0_no_derived_sf fb HF Hnd) as (_ & _ & Hubs & _). rewrite Hubs. intros [].
+  - rewrite forallb_forall in Hnx. specialize (Hnx _ Hx). discriminate.
 Qed.
 
 Lemma f2m_count_exact :
@@ -287,92 +301,49 @@ Local Notation S0 := (code_sem fb).
 Local Notation C := (f0_C fb).
 Local Notation lo := (f0_leftover fb).
 
-(** a successful [components_for] has evaluated the unranker at every index *)
-Lemma components_inv m lm tc memo sh r : f0_memo_ok fb memo -> tc <= C -> sh_cross sh = f0_N fb tc ->
-  components_for (f0_enum fb m lm) sh (Z.of_nat tc) memo = ROk r ->
-  forall j, (0 <= j < f0_N fb tc)%Z -> perm_def fb tc memo j.
+(** the enumerator is always built, its memo tables in order (C13 totality of the memoised counter / unranker) *)
+Lemma f2_memos_total : exists m lm cn lcn, memos_ok fb m lm /\ make_enumerator fb = ROk (f0_enum fb m lm cn lcn) /\ (0 < cn)%Z.
 Proof.
-  intros Hmemo Hle Hsh Hrun j Hj.
-  destruct (f0_unw fb) eqn:Hu; [apply (perm_def_unw fb HF tc memo j Hu Hle Hj)|].
-  unfold components_for in Hrun. apply rbind_ok in Hrun. destruct Hrun as [rr [Hr _]].
-  apply rmap_ok_inv in Hr. rewrite Hsh in Hr.
-  destruct (Forall2_seq_nth _ _ _ Hr (Z.to_nat j) ltac:(lia)) as [y Hy]. cbv beta in Hy.
-  rewrite Z2Nat.id in Hy by lia.
-  unfold full_round in Hy. cbn [en_base f0_enum eb_unweighted f0_base] in Hy. rewrite Hu, andb_false_r in Hy.
-  apply rbind_ok in Hy. destruct Hy as [shapes [Hy _]].
-  apply rbind_ok in Hy. destruct Hy as [perm [Hp _]].
-  unfold q_instances in Hp. cbn [eb_instances f0_base] in Hp. rewrite (f0_instances_length fb HF) in Hp.
-  unfold perm_def. rewrite Hp. f_equal. unfold perm_of. rewrite (jth_link fb HF tc memo j perm Hmemo Hj Hp). reflexivity.
+  destruct (f0_make_enumerator_total fb HF) as (m & lm & cn & lcn & Hen & Hm & Hlm & Hcn).
+  exists m, lm, cn, lcn. split; [apply (memos_ok_total fb HF m lm Hm Hlm)|]. split; [exact Hen | exact Hcn].
 Qed.
 
-Lemma f2_memos en ks : make_enumerator fb = ROk en -> all_keys fb en = ROk ks ->
-  exists m lm, en = f0_enum fb m lm /\ memos_ok fb m lm.
-Proof.
-  intros Hen Hks. destruct (f0_make_enumerator_inv fb HF en Hen) as (m & lm & -> & Hm & Hlm).
-  exists m, lm. split; [reflexivity|].
-  unfold all_keys in Hks. cbn [en_base en_shape en_memo f0_enum eb_csize f0_base] in Hks.
-  apply rbind_ok in Hks. destruct Hks as [cs [Hcs Hks]].
-  apply rbind_ok in Hks. destruct Hks as [ls [Hls _]].
-  cbn [en_leftover en_lshape en_lmemo f0_enum] in Hls.
-  constructor; [exact Hm | exact Hlm | |].
-  - apply (components_inv m lm C m (f0_shape fb C) cs Hm (le_n _) eq_refl Hcs).
-  - intros Hne. replace (Z.of_nat lo =? 0)%Z with false in Hls by (symmetry; apply Z.eqb_neq; lia).
-    replace (lo =? 0) with false in Hls by (symmetry; apply Nat.eqb_neq; exact Hne).
-    apply rbind_ok in Hls. destruct Hls as [l [Hl _]].
-    apply (components_inv m lm lo lm (f0_shape fb lo) l Hlm (Nat.lt_le_incl _ _ (f0_leftover_lt fb HF)) eq_refl Hl).
-Qed.
-
-(** either no key is drawn, or the enumerator is as in F2M *)
 Lemma f2_cases : keys_of fb = [] \/
-  exists m lm, memos_ok fb m lm /\ make_enumerator fb = ROk (f0_enum fb m lm).
-Proof.
-  unfold keys_of, sample_keys. destruct (fl_errors_fail fb); [left; reflexivity|].
-  destruct (make_enumerator fb) as [en|e] eqn:Hen; [|left; reflexivity]. cbn [rbind].
-  destruct (en_count en =? 0)%Z; [left; reflexivity|].
-  destruct (all_keys fb en) as [ks|e] eqn:Hks; [|left; reflexivity].
-  right. destruct (f2_memos en ks Hen Hks) as (m & lm & -> & HM). exists m, lm. split; [exact HM | reflexivity].
-Qed.
-
-Lemma f2_enumerates_memos : enumerates fb ->
-  exists m lm, memos_ok fb m lm /\ make_enumerator fb = ROk (f0_enum fb m lm).
-Proof.
-  intros (en & ks & Hen & Hks). destruct (f2_memos en ks Hen Hks) as (m & lm & -> & HM).
-  exists m, lm. split; [exact HM | exact Hen].
-Qed.
-
-(** the enumerator and its key list are always defined (C13 totality of the memoised counter / unranker) *)
-Lemma f2_memos_total : exists m lm, memos_ok fb m lm /\ make_enumerator fb = ROk (f0_enum fb m lm).
-Proof.
-  destruct (f0_make_enumerator_total fb HF) as (m & lm & Hen & Hm & Hlm).
-  exists m, lm. split; [apply (memos_ok_total fb HF m lm Hm Hlm) | exact Hen].
-Qed.
+  exists m lm cn lcn, memos_ok fb m lm /\ make_enumerator fb = ROk (f0_enum fb m lm cn lcn) /\ (0 < cn)%Z.
+Proof. right. apply f2_memos_total. Qed.
 
 Theorem f2_enumerates : enumerates fb.
 Proof.
-  destruct f2_memos_total as (m & lm & HM & Hen). exists (f0_enum fb m lm), (f0_keys fb).
-  split; [exact Hen | apply (all_keys_f0 fb HF m lm HM)].
+  destruct f2_memos_total as (m & lm & cn & lcn & HM & Hen & _). exists (f0_enum fb m lm cn lcn), (f0_keys fb).
+  split; [exact Hen | apply (all_keys_f0 fb HF m lm cn lcn HM)].
 Qed.
 
 (** the model returns no error value: enumerator, key list, the candidate of every key, the rejection test *)
 Theorem f2_total : exists en ks, make_enumerator fb = ROk en /\ all_keys fb en = ROk ks /\
   forall k, In k ks -> exists r v, decode_with fb en k = ROk r /\ are_constraints_violated fb en r = ROk v.
 Proof.
-  destruct f2_memos_total as (m & lm & HM & Hen). exists (f0_enum fb m lm), (f0_keys fb).
-  split; [exact Hen|]. split; [apply (all_keys_f0 fb HF m lm HM)|].
-  intros k Hk. apply (f0_keys_In fb HF m lm HM) in Hk.
-  destruct (decode_f0 fb HF m lm HM k Hk) as [r [Hd Hrow]]. exists r.
-  pose proof (f2_accepts_valid fb HF m lm Hen k r Hk Hrow) as Ha. unfold accepts in Ha. rewrite Hen in Ha.
-  destruct (are_constraints_violated fb (f0_enum fb m lm) r) as [v|e] eqn:Ev.
+  destruct f2_memos_total as (m & lm & cn & lcn & HM & Hen & Hcn). exists (f0_enum fb m lm cn lcn), (f0_keys fb).
+  split; [exact Hen|]. split; [apply (all_keys_f0 fb HF m lm cn lcn HM)|].
+  intros k Hk. apply (f0_keys_In fb HF m lm cn lcn HM) in Hk.
+  destruct (decode_f0 fb HF m lm cn lcn HM k Hk) as [r [Hd Hrow]]. exists r.
+  pose proof (f2_accepts_valid fb HF m lm cn lcn HM Hen Hcn k r Hk Hrow) as Ha. unfold accepts in Ha. rewrite Hen in Ha.
+  destruct (are_constraints_violated fb (f0_enum fb m lm cn lcn) r) as [v|e] eqn:Ev.
   - exists v. split; [exact Hd | reflexivity].
   - exfalso.
     (* the rejection test returns: it is computed in closed form in [f2_accepts_valid] *)
     destruct (f0_trials fb (f0_unpack fb HF)) as [HT | [Hnr Hone]].
     + assert (Hcells : forall g, In g (fl_act fb) -> exists row, rlookup r g = Some row /\ length row = fl_trials fb /\
-                Forall (fun cell => exists l, cell = Some l /\ l < nlevels fb g /\ ~ In (FExclude g l) (fl_constraints fb)) row).
+                Forall (fun cell => exists l, cell = Some l /\ l < nlevels fb g /\
+                                              (~ In g (f0_ubs fb) -> ~ In (FExclude g l) (fl_constraints fb))) row).
       { intros g Hg. pose proof (decoded_row_length fb HF Hq k g Hk Hg) as Hl.
         pose proof (decoded_row_cells fb HF Hq k g Hk Hg) as Hc. rewrite <- Hrow in Hl, Hc.
         unfold row_of_run in Hl, Hc. destruct (rlookup r g) as [row|]; [exists row; auto | cbn in Hl; lia]. }
-      rewrite (f2_violated fb HF m lm r Hcells) in Ev. discriminate.
+      destruct (has_derived fb) eqn:Ehd.
+      * destruct (f0_derived_single fb (f0_unpack fb HF) Ehd) as [Hone _].
+        assert (Hwf : forall g, In g (fl_act fb) -> exists row, rlookup r g = Some row /\ length row = fl_trials fb).
+        { intros g Hg. destruct (Hcells g Hg) as (row & H1 & H2 & _). exists row. auto. }
+        rewrite (f1_violated fb HF r Hwf (f0_enum fb m lm cn lcn) eq_refl Hone) in Ev. discriminate.
+      * rewrite (f2_violated fb HF m lm cn lcn r Hcells Ehd) in Ev. discriminate.
     + unfold no_rejecting_constraints in Hnr. rewrite forallb_forall in Hnr.
       assert (H : (fix go (cs : list fconstraint) : rres bool :=
                      match cs with
@@ -386,20 +357,17 @@ Proof.
       rewrite H in Ev. cbn [rbind] in Ev. cbn [en_base f0_enum eb_has_cc f0_base orb] in Ev. rewrite Hone in Ev. discriminate.
 Qed.
 
-(** without weights nothing can fail *)
+(** without weights nothing can fail (a special case now) *)
 Lemma f2_enumerates_unw : f0_unw fb = true -> enumerates fb.
-Proof.
-  intros Hu. exists (f0_enum fb [] []), (f0_keys fb). split; [apply (f0_make_enumerator_unw fb HF Hu)|].
-  apply (all_keys_f0 fb HF [] [] (memos_ok_unw fb HF Hu)).
-Qed.
+Proof. intros _. apply f2_enumerates. Qed.
 
 (** C04 on F2 *)
 Theorem f2_accept_sound k cand :
   In k (keys_of fb) -> decode_key fb k = Some cand -> accepts fb cand = true ->
   valid_b S0 (cand_seq fb cand) = true.
 Proof.
-  intros Hin. destruct f2_cases as [E | (m & lm & HM & Hen)]; [rewrite E in Hin; destruct Hin|].
-  apply (f2m_accept_sound fb HF m lm HM Hen k cand Hin).
+  intros Hin. destruct f2_cases as [E | (m & lm & cn & lcn & HM & Hen & Hcn)]; [rewrite E in Hin; destruct Hin|].
+  apply (f2m_accept_sound fb HF m lm cn lcn HM Hen Hcn k cand Hin).
 Qed.
 
 (** C05, injectivity on F2 *)
@@ -408,14 +376,14 @@ Theorem f2_cand_inj k1 k2 c1 c2 :
   decode_key fb k1 = Some c1 -> decode_key fb k2 = Some c2 ->
   cand_seq fb c1 = cand_seq fb c2 -> k1 = k2.
 Proof.
-  intros H1. destruct f2_cases as [E | (m & lm & HM & Hen)]; [rewrite E in H1; destruct H1|].
-  apply (f2m_cand_inj fb HF m lm HM Hen k1 k2 c1 c2 H1).
+  intros H1. destruct f2_cases as [E | (m & lm & cn & lcn & HM & Hen & Hcn)]; [rewrite E in H1; destruct H1|].
+  apply (f2m_cand_inj fb HF m lm cn lcn HM Hen Hcn k1 k2 c1 c2 H1).
 Qed.
 
 Theorem f2_keys_nodup : NoDup (keys_of fb).
 Proof.
-  destruct f2_cases as [E | (m & lm & HM & Hen)]; [rewrite E; constructor|].
-  apply (f2m_keys_nodup fb HF m lm HM Hen).
+  destruct f2_cases as [E | (m & lm & cn & lcn & HM & Hen & Hcn)]; [rewrite E; constructor|].
+  apply (f2m_keys_nodup fb HF m lm cn lcn HM Hen Hcn).
 Qed.
 
 (** C05, completeness on F2 *)
@@ -424,8 +392,8 @@ Theorem f2_accept_complete s :
   exists k cand, In k (keys_of fb) /\ decode_key fb k = Some cand /\ accepts fb cand = true /\
                  cand_seq fb cand = s.
 Proof.
-  destruct f2_memos_total as (m & lm & HM & Hen).
-  apply (f2m_accept_complete fb HF m lm HM Hen).
+  destruct f2_memos_total as (m & lm & cn & lcn & HM & Hen & Hcn).
+  apply (f2m_accept_complete fb HF m lm cn lcn HM Hen Hcn).
 Qed.
 
 (** C06 on F2 *)
@@ -434,16 +402,16 @@ Theorem f2_accepted_exact :
   NoDup (map (cand_fseq fb) (accepted_keys fb)) /\
   (forall s, In s (map (cand_fseq fb) (accepted_keys fb)) <-> valid_b S0 s = true).
 Proof.
-  destruct f2_memos_total as (m & lm & HM & Hen).
-  apply (f2m_accepted_exact fb HF m lm HM Hen).
+  destruct f2_memos_total as (m & lm & cn & lcn & HM & Hen & Hcn).
+  apply (f2m_accepted_exact fb HF m lm cn lcn HM Hen Hcn).
 Qed.
 
 Theorem f2_keys_count en :
   make_enumerator fb = ROk en -> fl_errors_fail fb = false ->
   NoDup (keys_of fb) /\ Z.of_nat (length (keys_of fb)) = possible_keys fb en.
 Proof.
-  intros Hen He. destruct f2_memos_total as (m & lm & HM & Hen'). rewrite Hen' in Hen. inversion Hen; subst en.
-  split; [apply f2_keys_nodup | apply (f2m_keys_count fb HF m lm HM Hen' He)].
+  intros Hen He. destruct f2_memos_total as (m & lm & cn & lcn & HM & Hen' & Hcn). rewrite Hen' in Hen. inversion Hen; subst en.
+  split; [apply f2_keys_nodup | apply (f2m_keys_count fb HF m lm cn lcn HM Hen' Hcn He)].
 Qed.
 
 Theorem f2_count_exact en :
@@ -453,20 +421,20 @@ Theorem f2_count_exact en :
   (forall s, In s (map (cand_fseq fb) (keys_of fb)) <-> valid_b S0 s = true) /\
   Z.of_nat (length (map (cand_fseq fb) (keys_of fb))) = possible_keys fb en.
 Proof.
-  intros Hen He Hrf. destruct f2_memos_total as (m & lm & HM & Hen'). rewrite Hen' in Hen. inversion Hen; subst en.
-  apply (f2m_count_exact fb HF m lm HM Hen' He Hrf).
+  intros Hen He Hrf. destruct f2_memos_total as (m & lm & cn & lcn & HM & Hen' & Hcn). rewrite Hen' in Hen. inversion Hen; subst en.
+  apply (f2m_count_exact fb HF m lm cn lcn HM Hen' Hcn He Hrf).
 Qed.
 
 Theorem f2_rejection_free_accepts k : rejection_free fb = true -> In k (keys_of fb) -> key_accepted fb k = true.
 Proof.
-  intros Hrf Hin. destruct f2_cases as [E | (m & lm & HM & Hen)]; [rewrite E in Hin; destruct Hin|].
-  apply (f2m_rejection_free_accepts fb HF m lm HM Hen k Hrf Hin).
+  intros Hrf Hin. destruct f2_cases as [E | (m & lm & cn & lcn & HM & Hen & Hcn)]; [rewrite E in Hin; destruct Hin|].
+  apply (f2m_rejection_free_accepts fb HF m lm cn lcn HM Hen Hcn k Hrf Hin).
 Qed.
 
 Theorem f2_key_accepted_spec k : In k (keys_of fb) -> key_accepted fb k = valid_b S0 (cand_fseq fb k).
 Proof.
-  intros Hin. destruct f2_cases as [E | (m & lm & HM & Hen)]; [rewrite E in Hin; destruct Hin|].
-  apply (f2m_key_accepted_spec fb HF m lm HM Hen k Hin).
+  intros Hin. destruct f2_cases as [E | (m & lm & cn & lcn & HM & Hen & Hcn)]; [rewrite E in Hin; destruct Hin|].
+  apply (f2m_key_accepted_spec fb HF m lm cn lcn HM Hen Hcn k Hin).
 Qed.
 
 End F2T.
